@@ -162,6 +162,7 @@ func (m *Metrics) AddCipherSearch(proto string, accessKeyFound bool, timeToCiphe
 // ---- the world ----
 
 type World struct {
+	NatTimeout time.Duration // the server's UDP NAT timeout (the -udptimeout flag); 0: 5 minutes
 	Dir     string
 	Path    string
 	Server  Facade
@@ -226,7 +227,11 @@ func (w *World) write(c Cfg) {
 // Boot starts the server with configuration c.
 func (w *World) Boot(c Cfg, replayHistory int) error {
 	w.write(c)
-	s, err := Start(w.Path, 5*time.Minute, replayHistory, w.M)
+	nt := w.NatTimeout
+	if nt == 0 {
+		nt = 5 * time.Minute
+	}
+	s, err := Start(w.Path, nt, replayHistory, w.M)
 	if err != nil {
 		return err
 	}
